@@ -2,6 +2,7 @@
 // assumption (trusted base); every entry is listed in the evidence of each check.
 pub mod prelude {
     use vstd::prelude::*;
+    pub use vstd::string::StringSliceAdditionalSpecFns;
     use std::net::{Ipv4Addr, Ipv6Addr};
     verus! {
 
@@ -244,8 +245,223 @@ pub mod prelude {
         ensures (#[trigger] cow_as_ref_spec::<[u8]>(c))@ == c@
     {}
 
+    // ---- strings: byte-level model -----------------------------------------------------
+    /// the UTF-8 bytes of a string slice (vstd's own byte view)
+    pub open spec fn sb(s: &str) -> Seq<u8> { s.spec_bytes() }
+
+    // a string slice is determined by its bytes / by its chars; it fits in memory
+    #[verifier::external_body]
+    pub broadcast proof fn axiom_str_ext_bytes(a: &str, b: &str)
+        ensures #[trigger] sb(a) == #[trigger] sb(b) ==> a == b
+    {}
+    #[verifier::external_body]
+    pub broadcast proof fn axiom_str_ext_chars(a: &str, b: &str)
+        ensures #[trigger] a@ == #[trigger] b@ ==> a == b
+    {}
+    #[verifier::external_body]
+    pub broadcast proof fn axiom_str_len_bound(a: &str)
+        ensures #[trigger] sb(a).len() <= isize::MAX
+    {}
+
+    /// bytes of an owned String / of a `Cow<str>`
+    pub uninterp spec fn string_bytes(s: String) -> Seq<u8>;
+    pub open spec fn cow_str_bytes(c: std::borrow::Cow<'_, str>) -> Seq<u8> {
+        match c { std::borrow::Cow::Borrowed(s) => sb(s), std::borrow::Cow::Owned(s) => string_bytes(s) }
+    }
+    #[verifier::external_body]
+    pub broadcast proof fn axiom_cow_deref_str<'a, 'b>(c: &'b std::borrow::Cow<'a, str>)
+        ensures sb(#[trigger] cow_deref_spec::<str>(c)) == cow_str_bytes(*c)
+    {}
+    // R16: `cow.to_string()` (ToString through Display of Cow<str>) copies the text
+    #[verifier::external_body]
+    pub fn cow_str_to_string(c: &std::borrow::Cow<'_, str>) -> (r: String)
+        ensures string_bytes(r) == cow_str_bytes(*c)
+    { c.to_string() }
+
+    // R17: slicing a `str` (this vstd gives `&s[a..b]` a precondition but no postcondition).
+    // Preconditions are std's panic conditions: in range and on char boundaries.
+    pub open spec fn str_cut_ok(b: Seq<u8>, i: int) -> bool { 0 <= i <= b.len() && vstd::utf8::is_char_boundary(b, i) }
+    #[verifier::external_body]
+    pub fn str_slice<'a>(s: &'a str, a: usize, b: usize) -> (r: &'a str)
+        requires a <= b, str_cut_ok(sb(s), a as int), str_cut_ok(sb(s), b as int)
+        ensures sb(r) == sb(s).subrange(a as int, b as int)
+    { &s[a..b] }
+    #[verifier::external_body]
+    pub fn str_slice_from<'a>(s: &'a str, a: usize) -> (r: &'a str)
+        requires str_cut_ok(sb(s), a as int)
+        ensures sb(r) == sb(s).subrange(a as int, sb(s).len() as int)
+    { &s[a..] }
+    #[verifier::external_body]
+    pub fn str_slice_to<'a>(s: &'a str, b: usize) -> (r: &'a str)
+        requires str_cut_ok(sb(s), b as int)
+        ensures sb(r) == sb(s).subrange(0, b as int)
+    { &s[..b] }
+    #[verifier::external_body]
+    pub fn str_get_to<'a>(s: &'a str, b: usize) -> (r: Option<&'a str>)
+        ensures r is Some == str_cut_ok(sb(s), b as int), r matches Some(t) ==> sb(t) == sb(s).subrange(0, b as int)
+    { s.get(..b) }
+    // UTF-8 facts (vstd::utf8): an ASCII byte starts a character and ends one; both ends are boundaries
+    #[verifier::external_body]
+    pub broadcast proof fn axiom_boundary_ascii(b: Seq<u8>, i: int)
+        ensures vstd::utf8::valid_utf8(b) && 0 <= i < b.len() && b[i] < 128 ==> #[trigger] vstd::utf8::is_char_boundary(b, i)
+    {}
+    #[verifier::external_body]
+    pub broadcast proof fn axiom_boundary_after_ascii(b: Seq<u8>, i: int)
+        ensures vstd::utf8::valid_utf8(b) && 0 < i <= b.len() && b[i - 1] < 128 ==> #[trigger] vstd::utf8::is_char_boundary(b, i)
+    {}
+    #[verifier::external_body]
+    pub broadcast proof fn axiom_boundary_ends(b: Seq<u8>)
+        ensures vstd::utf8::valid_utf8(b) ==> vstd::utf8::is_char_boundary(b, 0) && #[trigger] vstd::utf8::is_char_boundary(b, b.len() as int)
+    {}
+    #[verifier::external_body]
+    pub broadcast proof fn axiom_cow_str_valid(c: std::borrow::Cow<'_, str>)
+        ensures vstd::utf8::valid_utf8(#[trigger] cow_str_bytes(c))
+    {}
+
+    /// pattern searches, by pattern type (str::starts_with / ends_with / find are generic over
+    /// the unstable `Pattern` trait); the axioms below fix them for `&str` and `char` patterns
+    pub uninterp spec fn pat_starts<P>(s: Seq<u8>, p: P) -> bool;
+    pub uninterp spec fn pat_ends<P>(s: Seq<u8>, p: P) -> bool;
+    pub uninterp spec fn pat_find<P>(s: Seq<u8>, p: P) -> Option<usize>;
+
+    #[verifier::allow(undeclared_external_trait)]
+    pub assume_specification<P: std::str::pattern::Pattern>[ str::starts_with::<P> ](s: &str, p: P) -> (r: bool)
+        ensures r == pat_starts(sb(s), p);
+    #[verifier::allow(undeclared_external_trait)]
+    pub assume_specification<P: std::str::pattern::Pattern>[ str::ends_with::<P> ](s: &str, p: P) -> (r: bool)
+        where for<'x> P::Searcher<'x>: std::str::pattern::ReverseSearcher<'x>,
+        ensures r == pat_ends(sb(s), p);
+    #[verifier::allow(undeclared_external_trait)]
+    pub assume_specification<P: std::str::pattern::Pattern>[ str::find::<P> ](s: &str, p: P) -> (r: Option<usize>)
+        ensures r == pat_find(sb(s), p);
+
+    pub open spec fn is_prefix_of(p: Seq<u8>, s: Seq<u8>) -> bool { p.len() <= s.len() && s.subrange(0, p.len() as int) =~= p }
+    pub open spec fn is_suffix_of(p: Seq<u8>, s: Seq<u8>) -> bool { p.len() <= s.len() && s.subrange(s.len() - p.len(), s.len() as int) =~= p }
+    /// index of the first occurrence of byte `c`, or s.len() when there is none
+    pub open spec fn first_index_of(s: Seq<u8>, c: u8) -> int
+        decreases s.len()
+    { if s.len() == 0 { 0 } else if s[0] == c { 0 } else { 1 + first_index_of(s.subrange(1, s.len() as int), c) } }
+
+    pub broadcast proof fn lemma_first_index_bounds(s: Seq<u8>, c: u8)
+        ensures 0 <= #[trigger] first_index_of(s, c) <= s.len(),
+            first_index_of(s, c) < s.len() ==> s[first_index_of(s, c)] == c,
+            forall|j: int| 0 <= j < first_index_of(s, c) ==> s[j] != c,
+        decreases s.len()
+    {
+        if s.len() > 0 && s[0] != c {
+            let t = s.subrange(1, s.len() as int);
+            lemma_first_index_bounds(t, c);
+            assert forall|j: int| 0 <= j < first_index_of(s, c) implies s[j] != c by {
+                if j > 0 { assert(t[j - 1] == s[j]); }
+            }
+        }
+    }
+
+    #[verifier::external_body]
+    pub broadcast proof fn axiom_pat_starts_str(s: Seq<u8>, p: &str)
+        ensures #[trigger] pat_starts::<&str>(s, p) == is_prefix_of(sb(p), s)
+    {}
+    #[verifier::external_body]
+    pub broadcast proof fn axiom_pat_ends_str(s: Seq<u8>, p: &str)
+        ensures #[trigger] pat_ends::<&str>(s, p) == is_suffix_of(sb(p), s)
+    {}
+    // char patterns: only ASCII chars are used by ppp (' ', '\r', '+'); for an ASCII char the
+    // char-level search of a valid UTF-8 string coincides with the byte-level search
+    #[verifier::external_body]
+    pub broadcast proof fn axiom_pat_starts_char(s: Seq<u8>, c: char)
+        ensures (c as u32) < 128 ==> #[trigger] pat_starts::<char>(s, c) == (s.len() > 0 && s[0] == c as u8)
+    {}
+    #[verifier::external_body]
+    pub broadcast proof fn axiom_pat_find_char(s: Seq<u8>, c: char)
+        ensures (c as u32) < 128 ==> #[trigger] pat_find::<char>(s, c) ==
+            (if first_index_of(s, c as u8) < s.len() { Some(first_index_of(s, c as u8) as usize) } else { None::<usize> })
+    {}
+
+    #[verifier::external_trait_specification]
+    pub trait ExFromStr: Sized {
+        type ExternalTraitSpecificationFor: std::str::FromStr;
+        type Err;
+        fn from_str(s: &str) -> Result<Self, Self::Err>;
+    }
+
+    /// `str::parse::<F>()` / `F::from_str`: the std parser of F as a deterministic function of the bytes
+    pub uninterp spec fn from_str_spec<F: std::str::FromStr>(s: Seq<u8>) -> Result<F, F::Err>;
+
+    pub assume_specification<F: std::str::FromStr>[ str::parse::<F> ](s: &str) -> (r: Result<F, F::Err>)
+        ensures r == from_str_spec::<F>(sb(s));
+
+    // `"".parse::<u16>()` is an error (IntErrorKind::Empty)
+    #[verifier::external_body]
+    pub broadcast proof fn axiom_u16_parse_empty(s: Seq<u8>)
+        ensures s.len() == 0 ==> #[trigger] from_str_spec::<u16>(s) is Err
+    {}
+
+    // Option::filter with a specified predicate
+    pub assume_specification<T, P: FnOnce(&T) -> bool>[ Option::<T>::filter ](o: Option<T>, p: P) -> (r: Option<T>)
+        requires o matches Some(x) ==> p.requires((&x,))
+        ensures match o { None => r is None, Some(x) => (r == Some(x) && p.ensures((&x,), true)) || (r is None && p.ensures((&x,), false)) };
+
+    // R15: `s.iter().position(f)`
+    #[verifier::external_body]
+    pub fn slice_position<F: Fn(&u8) -> bool>(s: &[u8], f: F) -> (r: Option<usize>)
+        requires forall|i: int| 0 <= i < s@.len() ==> f.requires((&#[trigger] s@[i],))
+        ensures match r {
+            Some(i) => i < s@.len() && f.ensures((&s@[i as int],), true) && forall|j: int| 0 <= j < i ==> f.ensures((&#[trigger] s@[j],), false),
+            None => forall|j: int| 0 <= j < s@.len() ==> f.ensures((&#[trigger] s@[j],), false),
+        }
+    { s.iter().position(f) }
+
+    // std::str::from_utf8: succeeds exactly on valid UTF-8 and then denotes the same bytes
+    pub open spec fn valid_utf8(b: Seq<u8>) -> bool { vstd::utf8::valid_utf8(b) }
+    pub assume_specification<'a>[ std::str::from_utf8 ](b: &'a [u8]) -> (r: Result<&'a str, std::str::Utf8Error>)
+        ensures r is Ok == valid_utf8(b@), r matches Ok(s) ==> sb(s) == b@;
+    // every &str holds valid UTF-8
+    #[verifier::external_body]
+    pub broadcast proof fn axiom_str_valid_utf8(a: &str)
+        ensures valid_utf8(#[trigger] sb(a))
+    {}
+
+    // R13: the split iterator of v1::parse_line.  `Parts::new(h, n)` is
+    // `h.splitn(n, |c| c == ' ' || c == '\r').peekable()`; its remaining items are modelled by `rem()`.
+    #[verifier::external_body]
+    pub struct Parts<'a>(std::iter::Peekable<std::str::SplitN<'a, fn(char) -> bool>>);
+
+    #[verifier::external]
+    fn parts_is_sep(c: char) -> bool { c == ' ' || c == '\r' }
+
+    impl<'a> Parts<'a> {
+        /// all the pieces of the split, and how many of them have been consumed
+        pub uninterp spec fn all(&self) -> Seq<Seq<u8>>;
+        pub uninterp spec fn pos(&self) -> int;
+
+        #[verifier::external_body]
+        pub fn new(header: &'a str, n: usize) -> (r: Self)
+            ensures r.all() == crate::spec::splitn_spec(sb(header), n as nat), r.pos() == 0
+        { Parts(header.splitn(n, parts_is_sep as fn(char) -> bool).peekable()) }
+
+        #[verifier::external_body]
+        pub fn next(&mut self) -> (r: Option<&'a str>)
+            ensures
+                final(self).all() == old(self).all(),
+                0 <= old(self).pos() <= old(self).all().len(),
+                match r {
+                    None => old(self).pos() == old(self).all().len() && final(self).pos() == old(self).pos(),
+                    Some(s) => old(self).pos() < old(self).all().len() && sb(s) == old(self).all()[old(self).pos()]
+                        && final(self).pos() == old(self).pos() + 1,
+                }
+        { self.0.next() }
+
+        #[verifier::external_body]
+        pub fn peek(&mut self) -> (r: Option<&&'a str>)
+            ensures final(self).all() == old(self).all(), final(self).pos() == old(self).pos(),
+                0 <= old(self).pos() <= old(self).all().len(),
+                r is None == (old(self).pos() == old(self).all().len())
+        { self.0.peek() }
+    }
+
     pub broadcast group prelude_axioms {
         axiom_v4_octets_len, axiom_v6_octets_len, axiom_v4_ext, axiom_v6_ext, axiom_cow_as_ref_bytes, axiom_cow_deref_bytes, lemma_bitor_comm_u8,
+        axiom_str_ext_bytes, axiom_str_ext_chars, axiom_str_len_bound, axiom_pat_starts_str, axiom_pat_ends_str, axiom_pat_starts_char, axiom_pat_find_char, axiom_str_valid_utf8, axiom_cow_deref_str, lemma_first_index_bounds, axiom_u16_parse_empty, axiom_boundary_ascii, axiom_boundary_after_ascii, axiom_boundary_ends, axiom_cow_str_valid,
     }
     }
 }
